@@ -365,6 +365,7 @@ type Clause struct {
 type LoopSpec struct {
 	Ordinal    int
 	Invariants []*Clause
+	Progress   []*Clause // checked at every back edge against the state at the start of the iteration
 }
 
 type CallAssert struct {
@@ -385,9 +386,19 @@ type FuncContract struct {
 	Panics   *Clause // condition under which a panic is the specified outcome
 	Inline   bool    // force inlining at call sites even though a contract exists
 	FreshResult bool // reference results are freshly allocated, non-nil objects
+	Interference []*Interference
 	Pkg      string  // package path the contract was declared in ("" for stubs)
 	File     string
 	Line     int
+}
+
+// Interference models other goroutines acting between this function's calls
+// (a rely condition): before each call matching At, the heap arrays written by
+// the Writers are havocked and Assume (old = before the havoc) is assumed.
+type Interference struct {
+	At      []string
+	Writers []string
+	Assume  *Clause
 }
 
 type SpecFunc struct {
@@ -439,9 +450,9 @@ func newSpecSet() *SpecSet {
 
 var clauseKeywords = map[string]bool{
 	"requires": true, "ensures": true, "modifies": true, "trusted": true, "panics": true, "loop": true,
-	"invariant": true, "at": true, "func": true, "pred": true, "fn": true, "ufn": true, "sort": true,
+	"invariant": true, "progress": true, "at": true, "func": true, "pred": true, "fn": true, "ufn": true, "sort": true,
 	"ghost": true, "axiom": true, "layout": true, "callers": true, "pin": true, "typeshape": true,
-	"lemma": true, "inline": true, "nocall": true, "package": true, "freshresult": true, "opaque": true,
+	"lemma": true, "inline": true, "nocall": true, "package": true, "freshresult": true, "opaque": true, "interference": true,
 }
 
 var tagRe = regexp.MustCompile(`^C\d\d(,C\d\d)*$`)
@@ -623,6 +634,29 @@ func (ss *SpecSet) ParseSpecFile(path string, goComments bool, pkgPath string) e
 				return fmt.Errorf("%s:%d: trusted outside func", path, it.line)
 			}
 			cur.Trusted = true
+		case "interference":
+			if cur == nil {
+				return fmt.Errorf("%s:%d: interference outside func", path, it.line)
+			}
+			t := it.text
+			ia, iw, is := strings.Index(t, "at "), strings.Index(t, " writers "), strings.Index(t, " assume ")
+			if ia != 0 || iw < 0 || is < iw {
+				return fmt.Errorf("%s:%d: expected 'interference at A, B writers W1, W2 assume EXPR'", path, it.line)
+			}
+			split := func(x string) []string {
+				var out []string
+				for _, p := range strings.Split(x, ",") {
+					if p = strings.TrimSpace(p); p != "" {
+						out = append(out, p)
+					}
+				}
+				return out
+			}
+			c, err := mkClause("assume", item{"assume", t[is+len(" assume "):], it.line})
+			if err != nil {
+				return err
+			}
+			cur.Interference = append(cur.Interference, &Interference{At: split(t[3:iw]), Writers: split(t[iw+len(" writers "):is]), Assume: c})
 		case "freshresult":
 			if cur == nil {
 				return fmt.Errorf("%s:%d: freshresult outside func", path, it.line)
@@ -655,6 +689,15 @@ func (ss *SpecSet) ParseSpecFile(path string, goComments bool, pkgPath string) e
 				return err
 			}
 			curLoop.Invariants = append(curLoop.Invariants, c)
+		case "progress":
+			if curLoop == nil {
+				return fmt.Errorf("%s:%d: progress outside loop", path, it.line)
+			}
+			c, err := mkClause("progress", it)
+			if err != nil {
+				return err
+			}
+			curLoop.Progress = append(curLoop.Progress, c)
 		case "at":
 			// at call CALLEE: assert [label] expr
 			if cur == nil {
